@@ -18,6 +18,11 @@ RT = dict(entry="h_vg_roundtrip", mode="bounded", unwind=6, cex_unwind=6, unit="
 for _n in range(4):  # one run per member count (symbolic record offsets are what costs)
     ob(f"vg_roundtrip_n{_n}", ["C08", "C02"], defines=["VGP_ALLOC_OK", f"RT_NFIX={_n}"],
        bound=f"nvelt=={_n} (runs for 0..3), names<=3 chars, nattrs<=2, version<=4, allocations succeed", **RT)
+MM = dict(mode="bounded", bound="nvelt<=4, msize<=5 (exact reference model)", unwind=7, cex_unwind=7,
+          unit="vgp_u.c", file="hdf/src/vgp.c", objbits=10)
+ob("Vinqtagref_model", "C08", entry="h_Vinqtagref_model", **MM)
+ob("Vnrefs_model", "C08", entry="h_Vnrefs_model", **MM)
+ob("Vdeletetagref_model", "C08", entry="h_Vdeletetagref_model", **MM)
 
 prop("C08",
      residual="Vdetach write-back and descriptor reuse, per-file vgroup/vdata trees (tbbt), Vinsert by handle, "
